@@ -87,3 +87,64 @@ Example exBlockdiag :
   option_map (to_dense OpsZ) (blockdiag [exB 1 2 1; exB 0 1 7; exB 2 1 4]) =
   Some [[1; 3; 0; 0]; [0; 0; 0; 4]; [0; 0; 0; 5]]%Z.
 Proof. reflexivity. Qed.
+
+(** ** round 3: coded branches, index helpers, missing diagonal, round trips *)
+Require Import Clarabel.Csc.LemmasFast Clarabel.Csc.LemmasDiag Clarabel.Csc.LemmasIdx Clarabel.Csc.Check.
+From Coq Require Import Floats.
+
+(** every coefficient class occurs, and the coded branches give the one-formula result *)
+Example ex_classes :
+  classify_coef OpsZ 0%Z = CZero /\ classify_coef OpsZ 1%Z = COne /\
+  classify_coef OpsZ (-1)%Z = CMinusOne /\ classify_coef OpsZ 7%Z = CGeneral.
+Proof. repeat split; reflexivity. Qed.
+
+Example ex_fast_Z :
+  let A := mkCsc 2 3 [[(1, 5%Z)]; []; [(0, 2%Z); (1, (-1)%Z)]] in
+  gemv_fast OpsZ A [1; 2; 3]%Z [10; 20]%Z (-1)%Z 0%Z = [-6; -2]%Z /\
+  gemv_T_fast OpsZ A [1; 2]%Z [7; 8; 9]%Z 1%Z (-1)%Z = [3; -8; -9]%Z /\
+  gemv_fast OpsZ A [1; 2; 3]%Z [10; 20]%Z 0%Z 4%Z = [40; 80]%Z.
+Proof. repeat split; reflexivity. Qed.
+
+(** at binary64 the branches are observable: b = 0 overwrites NaN garbage (the general formula
+    would give NaN), and with a = 0 the NaN in x is never read; symv has no fast path, so it
+    computes 0 * NaN = NaN and 0 * (-5) = -0 *)
+Example ex_fast_F :
+  let A := mkCsc 2 2 [[(0, 2%float)]; [(0, 1%float); (1, 3%float)]] in
+  flist_eqb (gemv_fast OpsF A [1; 1]%float [nan; infinity]%float 1%float 0%float) [3; 3]%float = true /\
+  flist_eqb (gemv OpsF A [1; 1]%float [nan; infinity]%float 1%float 0%float) [3; 3]%float = false /\
+  flist_eqb (gemv_fast OpsF A [nan; 1]%float [4; -5]%float 0%float (-1)%float) [-4; 5]%float = true /\
+  flist_eqb (symv_coded OpsF A [(-0); (-0)]%float [nan; (-5)]%float 1%float 0%float) [nan; (-0)]%float = true.
+Proof. repeat split; vm_compute; reflexivity. Qed.
+
+(** index_to_coord with an empty leading column and an unsorted column: stored entry 0 lives in
+    column 1 (the C17-4 situation) *)
+Definition exR : @raw Z := mkRaw 3 4 [0; 0; 2; 2; 3] [2; 0; 1] [5; 6; 7]%Z.
+Example exR_index :
+  check_dimensions exR = FmtOk /\
+  raw_index_to_coord exR 0 = Some (2, 1) /\ raw_index_to_coord exR 1 = Some (0, 1) /\
+  raw_index_to_coord exR 2 = Some (1, 3) /\ raw_index_to_coord exR 3 = None /\
+  index_to_coord OpsZ (decode exR) 0 = Some (2, 1).
+Proof. repeat split; reflexivity. Qed.
+
+(** is_triu looks at every stored entry: a sub-diagonal entry stored first in its column *)
+Example ex_is_triu_unsorted :
+  is_triu (mkCsc 2 2 [[(1, 2%Z); (0, 4%Z)]; [(1, 3%Z)]]) = false /\
+  is_triu (mkCsc 3 3 [[(0, 4%Z)]; [(1, 5%Z); (0, 1%Z)]; [(2, 6%Z); (0, 2%Z); (1, 3%Z)]]) = true.
+Proof. split; reflexivity. Qed.
+
+(** missing diagonal: column 1 stores an entry above the diagonal but no diagonal entry (the
+    C11-4 situation), column 2 is empty *)
+Definition exM : @csc Z := mkCsc 3 3 [[(0, 4%Z)]; [(0, 7%Z)]; []].
+Example exM_missing :
+  Canonical exM /\ nr exM = nc exM /\ is_triu exM = true /\
+  add_missing_diag OpsZ exM = mkCsc 3 3 [[(0, 4%Z)]; [(0, 7%Z); (1, 0%Z)]; [(2, 0%Z)]] /\
+  count_missing_diag exM = 2 /\ count_diag_triu exM = 1.
+Proof. repeat split; reflexivity. Qed.
+
+(** round trips on a full symmetric matrix *)
+Definition exS : @csc Z :=
+  mkCsc 3 3 [[(0, 4%Z); (1, (-3)%Z)]; [(0, (-3)%Z); (1, 8%Z); (2, (-1)%Z)]; [(1, (-1)%Z); (2, 2%Z)]].
+Example exS_roundtrip :
+  Canonical exS /\ to_triu exS = exU /\ to_triu (to_triu exS) = to_triu exS /\
+  sym_dense OpsZ exU = to_dense OpsZ exS /\ is_triu exS = false.
+Proof. repeat split; reflexivity. Qed.
